@@ -391,12 +391,14 @@ def gen_case(rng, small=False):
                 c0 = max(c0, lo)
                 c1 = max(c1, min(len(cols), c0 + 8))
             skip = None
-            if listed and lo is None and rng.random() < 0.2:
+            if listed and lo is None and rng.random() < 0.25:
                 # systematic reference skips next to a listed variant (any kind, carried or not): the variant directly
                 # after the skip, its first base (anchor) the last skipped base, directly before the skip, its last base
                 # the first skipped base, or inside -- with 0 / 1 / 2 other listed variants inside the skipped region
                 v = rng.choice(listed)
                 rel = rng.choice(SKIP_RELATIONS)
+                if G.kind_of(v) in ("ins", "del") and not G.is_right_anchored(v) and rng.random() < 0.4:
+                    rel = "first_base_is_last_skipped"      # the indel itself sits at the first base after the skip
                 want = rng.choice([0, 0, 1, 2])
                 best = None
                 for n in rng.sample(range(1, 45), 44):
